@@ -1253,6 +1253,21 @@ fn verifier_obs<F: VF, S: Stark<F, 2> + Copy>(
                 .goal(A::Bool(matches!(a0, A::Accept(true, _))))
                 .key("stark-verifier:honest-proof-rejected"),
         );
+        // a proof of a STARK with constraints that omits the quotient commitment must be rejected:
+        // otherwise zeta is drawn without any commitment to the quotient and its FRI oracle is
+        // never authenticated (the caps list is shorter than the oracle list)
+        {
+            let mut p2 = base.proof.clone();
+            p2.quotient_polys_cap = None;
+            let np = base.with(p2, base.pis.clone());
+            let r = run_full::<F, S>(stark, &np);
+            ctx.add(
+                Ob::new(format!("{idp}.shape.no-quotient-cap"), F_VERIFY, bounds.clone())
+                    .sample("the same proof with quotient_polys_cap := None (openings unchanged) is rejected by verify_stark_proof_with_challenges")
+                    .goal(A::Bool(!matches!(r, A::Accept(true, _))))
+                    .key("stark-verifier:accepts-proof-without-quotient-commitment"),
+            );
+        }
         let delta = F::var("delta");
         let idx = base.query_indices[0];
         let cap_entry = idx >> (DEGREE_BITS + 1 - 1);
